@@ -90,6 +90,7 @@ def run(ctx):
 
     sorted_rule(ctx, syn)
     row_rule(ctx, syn)
+    compress_rule(ctx, syn)
 
     r_own = ctx.rule("C01.OWN", "index, id-map, store and position-index fields are written only by their sanctioned writers")
     n = own_rule(ctx, prog, r_own)
@@ -714,3 +715,112 @@ def row_rule(ctx, syn):
         except (Unknown, Panic) as e:
             ctx.report(r, "%s:unevaluated" % ty, "%s::insert/remove could not be evaluated (%s): the row discipline is not established" % (ty, e), ins.file, ins.line)
     ctx.floor(r, n, 12, "row operations evaluated")
+
+
+# ---------------------------------------------------------------------- COMPRESS
+def compress_rule(ctx, syn):
+    """range compression of sub-selectors preserves meaning: whenever the match in `subselectors` replaces
+    (last, selector) by an internal ranged selector, expanding that ranged selector gives back exactly the
+    selectors it replaced.  The match is evaluated from its syntax tree on every pair of a small domain."""
+    import itertools
+    from synq import find, unparse, strip
+    from formula import Evaluator, Unknown, Panic, StructVal, EnumVal, some, is_some
+    r = ctx.rule("C01.COMPRESS", "an internal ranged selector stands for exactly the sub-selectors it replaced (same resource, consecutive handles, default offset mode, whole text)")
+    subs = syn.fn("subselectors", self_ty="AnnotationStore")
+    ctx.functions_analysed.add(subs.qual)
+    target = None
+    for m_ in find(subs.body, "match"):
+        if m_["e"].get("k") == "tuple" and len(m_["e"]["elems"]) == 2 and any(True for _ in find(m_, "structlit")):
+            target = m_
+    if target is None:
+        ctx.anchor_missing(r, "match (&last, &selector) in AnnotationStore::subselectors")
+        return
+    WHOLE = StructVal("Offset", {"begin": EnumVal("BeginAligned", [0]), "end": EnumVal("EndAligned", [0])})
+    PARTS = [StructVal("Offset", {"begin": EnumVal("BeginAligned", [1]), "end": EnumVal("EndAligned", [0])}),
+             StructVal("Offset", {"begin": EnumVal("BeginAligned", [0]), "end": EnumVal("EndAligned", [SInt_(-1)])}),
+             StructVal("Offset", {"begin": EnumVal("BeginAligned", [0]), "end": EnumVal("BeginAligned", [2])})]
+    modes = ["BeginBegin", "BeginEnd", "EndEnd", "EndBegin"]
+
+    def tsel(r_, h, m):
+        return EnumVal("TextSelector", [r_, h, EnumVal(m)])
+
+    def asel(h, off):   # off: None | ("w",) | ("p", i)
+        payload = None if off is None else some(("tsel-of", h, off))
+        return EnumVal("AnnotationSelector", [h, payload])
+
+    def rtext(r_, b, e):
+        return StructVal("RangedTextSelector", {"resource": r_, "begin": b, "end": e})
+
+    def rann(b, e, wt):
+        return StructVal("RangedAnnotationSelector", {"begin": b, "end": e, "with_text": wt})
+
+    def expand(sel):
+        """what a (possibly ranged) selector stands for: list of (kind, resource, handle, mode / offset class)"""
+        if isinstance(sel, EnumVal) and sel.name == "TextSelector":
+            return [("text", sel.args[0], sel.args[1], sel.args[2].name)]
+        if isinstance(sel, EnumVal) and sel.name == "AnnotationSelector":
+            off = sel.args[1]
+            cls = "none" if off is None else ("whole" if off[1][2] == ("w",) else "part%d" % off[1][2][1])
+            return [("ann", None, sel.args[0], cls)]
+        if isinstance(sel, StructVal) and sel.tyname == "RangedTextSelector":
+            return [("text", sel["resource"], h, "BeginBegin") for h in range(sel["begin"], sel["end"] + 1)]
+        if isinstance(sel, StructVal) and sel.tyname == "RangedAnnotationSelector":
+            return [("ann", None, h, "whole" if sel["with_text"] else "none") for h in range(sel["begin"], sel["end"] + 1)]
+        raise Unknown("selector %r" % (sel,))
+
+    def offset_of(sel):
+        if isinstance(sel, EnumVal) and sel.name == "AnnotationSelector" and sel.args[1] is not None:
+            off = sel.args[1][1][2]
+            return some(WHOLE if off == ("w",) else PARTS[off[1]])
+        if isinstance(sel, StructVal) and sel.tyname == "RangedAnnotationSelector":
+            return some(WHOLE) if sel["with_text"] else None
+        return None
+    hooks = {}
+    hooks["as_usize"] = lambda ev, recv, args, node, env: recv if isinstance(recv, int) else NotImplemented
+    hooks["offset_with_mode"] = lambda ev, recv, args, node, env: offset_of(recv)
+    hooks["offset"] = lambda ev, recv, args, node, env: offset_of(recv)
+    hooks["call:Offset::whole"] = lambda ev, recv, args, node, env: WHOLE
+    hooks["is_whole"] = lambda ev, recv, args, node, env: (recv == WHOLE) if isinstance(recv, StructVal) else NotImplemented
+    lasts = [tsel(r_, 3, m) for r_ in (0, 1) for m in modes] + [rtext(0, 2, 3), rtext(1, 2, 3)] + \
+            [asel(3, None), asel(3, ("w",))] + [asel(3, ("p", i)) for i in range(len(PARTS))] + [rann(2, 3, False), rann(2, 3, True)]
+    nexts = [tsel(r_, h, m) for r_ in (0, 1) for h in (4, 5, 3) for m in modes] + \
+            [asel(h, o) for h in (4, 5, 3) for o in [None, ("w",)] + [("p", i) for i in range(len(PARTS))]]
+    stmt_let = {"k": "let", "pat": {"k": "pat", "p": "ident", "name": "substitute", "s": "mut substitute", "mut": True, "byref": False}, "init": {"k": "path", "path": ["None"]}}
+    block = {"k": "block", "stmts": [stmt_let, {"k": "exprstmt", "e": target, "semi": True}, {"k": "exprstmt", "e": {"k": "path", "path": ["substitute"]}, "semi": False}]}
+    reported = set()
+    n = merged = 0
+    for last, nxt in itertools.product(lasts, nexts):
+        try:
+            res = Evaluator(hooks=hooks).run_body(block, {"last": last, "selector": nxt, "self": StructVal("AnnotationStore", {})})
+        except (Unknown, Panic) as e:
+            if "unevaluated" not in reported:
+                reported.add("unevaluated")
+                ctx.report(r, "unevaluated", "the range-compression match of subselectors could not be evaluated (%s) on (%r, %r): that compression preserves the selectors is not established" % (e, last, nxt), subs.file, target.get("l"))
+            continue
+        n += 1
+        if res is None:
+            continue
+        merged += 1
+        sub = res[1] if is_some(res) else res
+        try:
+            got = expand(sub)
+            want = expand(last) + expand(nxt)
+        except Unknown as e:
+            got, want = None, str(e)
+        kind = (last.name if isinstance(last, EnumVal) else last.tyname) + "+" + (nxt.name if isinstance(nxt, EnumVal) else nxt.tyname)
+        r.obligations += 1
+        if got == want:
+            r.discharged += 1
+            if merged % 3 == 1:
+                r.hit("merge:%s#%d" % (kind, merged), sample={"last": repr(last), "selector": repr(nxt), "substitute": repr(sub)})
+        elif kind not in reported:
+            reported.add(kind)
+            ctx.report(r, kind, "subselectors replaces (%r, %r) by %r, which stands for %s, not for the two selectors it replaced (%s): the annotation's targets change when it is stored (and written back)" % (last, nxt, sub, got, want), subs.file, target.get("l"), {"last": repr(last), "selector": repr(nxt)})
+    r.hit("pairs", sample={"pairs_evaluated": n, "merged": merged})
+    ctx.floor(r, n, 600, "selector pairs evaluated")
+    ctx.floor(r, merged, 6, "merging pairs")
+
+
+def SInt_(v):
+    from formula import SInt
+    return SInt(v)
